@@ -93,8 +93,20 @@ func c05main(c *Ctx) {
 		} else {
 			slog.RemoveFlags(slog.Lcaller)
 		}
+		otherFlags := randomOtherFlags(r)
+		warm := r.Intn(4) // 0,1: none; 2: the same logger first logs in JSON; 3: in colored mode, then is switched to logfmt
 		run := func(cs recCase) ([]byte, []tv) {
 			lg := newRoot(cs.name, FLogfmt, w, slog.AlwaysLevel)
+			switch warm {
+			case 2:
+				lg.SetJSONMode(true)
+				lg.Info("warm-up record in another format")
+				lg.SetJSONMode(false)
+			case 3:
+				lg.SetColorMode(true)
+				lg.Info("warm-up record in another format\nsecond line")
+				lg.SetColorMode(false)
+			}
 			evs := capture(log, func() { lg.LogAttrs(bg, cs.lvl, cs.msg, anyAttrs(cs.kvs)...) })
 			c.R.Add("write_events", int64(len(evs)))
 			if len(evs) != 1 || evs[0].Kind != mon.EvWrite {
@@ -103,6 +115,7 @@ func c05main(c *Ctx) {
 			return evs[0].Data, c05check(evs[0].Data, cs)
 		}
 		desc := cs.desc(FLogfmt)
+		desc["other_flags"], desc["same_logger_logged_before_in"] = otherFlags, []string{"-", "-", "json", "color"}[warm]
 		payload, viols := run(cs)
 		if len(viols) == 0 {
 			c.R.Add("records_decoded", 1)
@@ -240,10 +253,17 @@ func c05check(payload []byte, cs recCase) (out []tv) {
 	rest := pairs[pos:]
 	// caller pairs at the end
 	if cs.caller {
-		if len(rest) < 3 || rest[len(rest)-3].Key != "caller.file" || rest[len(rest)-2].Key != "caller.line" || rest[len(rest)-1].Key != "caller.function" {
-			out = append(out, tv{"envelope", "caller", "caller.file/line/function pairs missing at the end of the record"})
+		// caller.file and caller.function are required, caller.line may depend on the line-number flag
+		n := 0
+		seenC := map[string]bool{}
+		for n < len(rest) && n < 3 && strings.HasPrefix(rest[len(rest)-1-n].Key, "caller.") {
+			seenC[rest[len(rest)-1-n].Key] = true
+			n++
+		}
+		if !seenC["caller.file"] || !seenC["caller.function"] {
+			out = append(out, tv{"envelope", "caller", "caller.file / caller.function pairs missing at the end of the record"})
 		} else {
-			rest = rest[:len(rest)-3]
+			rest = rest[:len(rest)-n]
 		}
 	}
 	seen := map[string]bool{}
